@@ -143,6 +143,7 @@ fn sizes(p: &[TInd], o: &[TInd]) -> String {
 pub fn run(rep: &mut Report) {
     rep.alpha("operators DiscardOffspring, Merge, MuPlusLambda(mu), Generational(mu), RandomReplacement(mu), KeepBetterAtIndex; mu in 0..7");
     rep.alpha("parents and offspring: all sequences of length 0..S over objectives {0,1,2} with distinct tags, all sequences of length 1..2 over {0.0,-0.0,1e-17}, plus variants where the first offspring is an exact copy of the first parent; a sentinel population below both");
+    rep.alpha("objective values that are neighbouring doubles (around 1, -2.5, 1e300, 3e-300, 1024); mu in {2^30, 2^30+1, 2^31, 2^31+5, 3*2^30, 2^31-1, 2^32-2, 2^32-1} (unbounded) for the three bounded operators");
     rep.alpha("the same operators on parent / offspring populations of 0..90 individuals with many tied objective values, mu from 1 to beyond the merged size, default generator streams of 48 (thorough 256) seeds");
     rep.assume("for RandomReplacement every generator word of the shuffle is a choice (menu words + default), all tapes over the first D draws");
     let thorough = rep.tier == Tier::Thorough;
@@ -172,6 +173,19 @@ pub fn run(rep: &mut Report) {
         for no in 1..=2usize {
             for p in tagged_pops(np, &fine) {
                 for o in tagged_pops(no, &fine) {
+                    pairs.push((p.clone(), o.iter().map(|i| (i.0 + 10, i.1)).collect()));
+                }
+            }
+        }
+    }
+    // neighbouring doubles: better by one unit in the last place is better
+    let up = |x: f64| f64::from_bits(if x >= 0.0 { x.to_bits() + 1 } else { x.to_bits() - 1 });
+    let down = |x: f64| f64::from_bits(if x > 0.0 { x.to_bits() - 1 } else { x.to_bits() + 1 });
+    for base in [1.0f64, -2.5, 1.0e300, 3.0e-300, 1024.0] {
+        let g = [base, up(base), down(base)];
+        for np in 1..=2usize {
+            for p in tagged_pops(np, &g) {
+                for o in tagged_pops(np, &g) {
                     pairs.push((p.clone(), o.iter().map(|i| (i.0 + 10, i.1)).collect()));
                 }
             }
@@ -246,6 +260,47 @@ pub fn run(rep: &mut Report) {
     part.require_outcomes(10);
     rep.push(part);
 
+    // population bounds that stand for "unbounded": each case in a process of its own (a failed allocation aborts)
+    let mut part = Part::new("replacement.unbounded-mu");
+    let huge: [u32; 8] = [1 << 30, (1 << 30) + 1, 1 << 31, (1 << 31) + 5, 3 << 30, i32::MAX as u32, u32::MAX - 1, u32::MAX];
+    part.bound("mu_values", huge.len() as u64);
+    let pp: Vec<(Vec<TInd>, Vec<TInd>)> = vec![
+        (vec![(0, 2.0), (1, 0.0)], vec![(10, 1.0), (11, 3.0), (12, 0.5)]),
+        ((0..9).map(|i| (i as u32, (i % 4) as f64)).collect(), (0..9).map(|i| (100 + i as u32, (i % 5) as f64 * 0.5)).collect()),
+    ];
+    let mut jobs: Vec<(Rep, usize)> = vec![];
+    for mu in huge {
+        for k in 0..pp.len() {
+            jobs.push((Rep::MuPlusLambda(mu), k));
+            jobs.push((Rep::Random(mu), k));
+            jobs.push((Rep::Generational(mu), k));
+        }
+    }
+    let res: Vec<(Value, Result<Vec<(String, String)>, String>)> = jobs
+        .par_iter()
+        .map(|(r, k)| {
+            let inner = json!({"rep": format!("{:?}", r), "parents": pp[*k].0, "offspring": pp[*k].1, "tape": [], "menu": 4, "seed": seed});
+            let iso = crate::engine::util::isolated_replay("C12", &inner, 16_000_000, std::time::Duration::from_secs(60));
+            let v = iso.into_violations(&format!("C12 op={} mu=unbounded process-dies", r.name()), &format!("{:?} with parents {:?} and offspring {:?}", r, pp[*k].0, pp[*k].1));
+            (json!({"isolated": inner}), v)
+        })
+        .collect();
+    for (case, r) in res {
+        part.states += 1;
+        part.traces += 1;
+        part.transitions += 1;
+        match r {
+            Ok(v) => {
+                part.outcome(if v.is_empty() { "kept-everybody" } else { "violation" });
+                for (sg, d) in v {
+                    part.violate(sg, d, case.clone());
+                }
+            }
+            Err(m) => part.machinery(format!("isolated replacement case: {}", m)),
+        }
+    }
+    rep.push(part);
+
     // populations far beyond the exhaustive bound (dozens of individuals, many ties): default generator
     // streams of a number of seeds, same oracle
     let mut part = Part::new("replacement.large-populations");
@@ -293,6 +348,13 @@ pub fn run(rep: &mut Report) {
 }
 
 pub fn replay(case: &Value) -> Result<Vec<(String, String)>, String> {
+    if case["isolated"].is_object() {
+        let inner = &case["isolated"];
+        let op = inner["rep"].as_str().unwrap_or("").split('(').next().unwrap_or("").to_string();
+        let op = if op == "Random" { "RandomReplacement".to_string() } else { op };
+        let iso = crate::engine::util::isolated_replay("C12", inner, 16_000_000, std::time::Duration::from_secs(60));
+        return iso.into_violations(&format!("C12 op={} mu=unbounded process-dies", op), &format!("{} with parents {} and offspring {}", inner["rep"], inner["parents"], inner["offspring"]));
+    }
     let s = case["rep"].as_str().ok_or("no rep")?;
     let num = |s: &str| s[s.find('(').unwrap() + 1..s.len() - 1].parse::<u32>().unwrap_or(0);
     let r = if s.starts_with("MuPlusLambda") {
